@@ -73,7 +73,7 @@ func PrivateIndicator(psi []byte) bool {
 
 // SectionLength returns the psi section length
 func SectionLength(psi []byte) uint16 {
-	offset := int(1 + PointerField(psi))
+	offset := 1 + int(PointerField(psi))
 	if offset >= len(psi) {
 		return 0
 	}
